@@ -99,10 +99,10 @@ Print Assumptions C06P_refs_carry_suffix_partial.
    The directives of a kustomization (namespace, namePrefix, nameSuffix, labels, commonLabels, commonAnnotations; the
    builtin transformers in the generated order) never change what the hasher reads of any resource, nor whether it asks
    for a suffix: the suffix computed at the top is a function of the generators' declarations alone.
-   Guards: `labels` entries without custom `fields`; every accumulated document has a kind. *)
+   Guards: `labels` entries without custom `fields`; no `images:` directive; every accumulated document has a kind. *)
 Theorem C06P_invariance_transformers :
   forall nonstr d m m',
-    no_custom_fields d -> Forall has_kind m -> run_transformers nonstr d m = Ok m' ->
+    no_custom_fields d -> pd_images d = [] -> Forall has_kind m -> run_transformers nonstr d m = Ok m' ->
     Forall2 (fun r r' => content_of_node (r_node r') = content_of_node (r_node r) /\ r_needs_hash r' = r_needs_hash r) m m'.
 Proof. exact transformers_keep_content. Qed.
 Print Assumptions C06P_invariance_transformers.
